@@ -151,6 +151,8 @@ def library_view(path):
 # ------------------------------------------------------------------ generators
 def some_chunkings(img, rng, k):
     n = len(img.data)
+    if n > 150000:      # the list model is quadratic in the number of chunks inside a region: large streams get large chunks
+        return ([[n], [65536] * (n // 65536) + ([n % 65536] if n % 65536 else []), [n // 3, n - n // 3], [262144] * (n // 262144 + 1)])[:k]
     out = [[n] if n else []]
     if n: out.append([4096] * (n // 4096) + ([n % 4096] if n % 4096 else []))      # what detect_file_format reads
     pool = []
@@ -176,6 +178,16 @@ def extra_truth(img):
     rej += [x for x in un if x == 'vmdk_createtype_other_shadowed']
     return rej
 
+CAP = 16384
+def capped(img):
+    """drop the payload behind what the inspector needs (keeps the ground truth: the verdict does not depend on it)"""
+    t = img.traits
+    ca = t.get('complete_at')
+    if len(img.data) > CAP and img.fmt not in ('vhdx', 'iso') and not t.get('tail_sensitive') and ca is not None and ca <= CAP // 2 \
+            and not (img.fmt == 'vmdk' and t.get('has_footer')):
+        return img.replace(data=img.data[:CAP])
+    return img
+
 def mk(op, img, sizes, label, **kw):
     exp = img.expect_accept
     w = why(img)
@@ -191,6 +203,7 @@ def trait_cases(rng, tier, fmts=ib.FORMATS):
     for fmt in fmts:
         for i, img in enumerate(ib.trait_images(fmt, rng, tier)):
             if fmt == 'vhdx' and tier == 'quick' and i % 2: continue        # 0.3 .. 1.2 MB each
+            img = capped(img)
             chs = some_chunkings(img, rng, nch if fmt != 'vhdx' else 2)
             for ch in chs:
                 yield mk('safety', img, ch, 'trait')
@@ -239,7 +252,24 @@ def cli_cases(rng, tier):
         yield {'op': 'cli', 'fmt': 'raw', 'z': pack(b''), 'sizes': [], 'exp': False, 'why': ['missing file'], 'k': 'cli-nofile', 'verbose': False, 'how': how, 'path': 'missing'}
         yield {'op': 'cli', 'fmt': 'raw', 'z': pack(b''), 'sizes': [], 'exp': False, 'why': ['directory'], 'k': 'cli-dir', 'verbose': True, 'how': how, 'path': 'dir'}
 
+def f1_images(rng, tier):
+    """text-descriptor VMDKs (zone F1): a clean head that fills the first read, an unsafe line behind it"""
+    L = ib
+    for pad in ((60, 200) if tier == 'quick' else (57, 60, 100, 200, 1000)):
+        for tail in ([L.L_extent('RW', 1, 'FLAT', '/etc/passwd', 0)], [L.L_junk('this is not a descriptor line')],
+                     [L.L_extent('RW', 1, 'FLAT', '/dev/sda', 0), L.L_ddb()]):
+            yield ib.trait_image('vmdk', dict(subformat='text', create_type_pos=0,
+                                              lines=[L.L_extent()] + [L.L_comment('# ' + 'x' * 70)] * pad + tail), rng)
+
+def f1_cases(rng, tier):
+    for img in f1_images(rng, tier):
+        n = len(img.data)
+        for sizes in ([n], [4096] * (n // 4096 + 1), [512] * (n // 512 + 1), [100, n - 100]):
+            yield mk('safety', img, sizes, 'text-descriptor')
+        yield mk('cli', img, [], 'cli-text-descriptor', verbose=False, how='main')
+
 def gen_cases(rng, tier):
+    yield from f1_cases(rng, tier)
     yield from trait_cases(rng, tier)
     yield from cli_cases(rng, tier)
 
